@@ -187,9 +187,8 @@ ensures(c, "leaf", lambda block, result: Iff(result, And(Len(block._next) == 0, 
 ensures(c, "name", lambda block, result: Eq(result, VBool(LEAF(block.term))), naming=True)
 
 # `_null_set(key)` / `_universal_set(key)` are constants of the domain: name them
-NULLV = z3.Function("NULLV", z3.StringSort(), AbsVal)
+from contracts.generic import NULLV  # noqa: E402
 from pyvc.dsl import REGISTRY  # noqa: E402
-ensures(REGISTRY[G + "_null_set"], "name", lambda key, result: VBool(result.term == NULLV(_s(key))), naming=True)
 
 
 # ---- helpers over the heap -------------------------------------------------------------------------------------------------
